@@ -95,6 +95,28 @@ def unescape : Str → Str
       | rest => c :: unescape rest
     else c :: unescape r
 
+/-! ## When is an output expression escaped: the environment's rule -/
+
+def lowerStr (s : Str) : Str := s.map Char.toLower
+
+/-- `select_autoescape(enabled_extensions=("htm","html","xml","json"), default_for_string=False, default=False)`:
+keyed on the template's name (case-insensitive suffix); a template from a string (`none`) is not escaped. -/
+def selectAutoescape : Option String → Bool
+  | none => false
+  | some name =>
+    let n := lowerStr name.toList
+    ".htm".toList.isSuffixOf n || ".html".toList.isSuffixOf n || ".xml".toList.isSuffixOf n || ".json".toList.isSuffixOf n
+
+/-- The environment's escaping decision (after the fix): ON for the target language `html`, whatever the template
+is called and whatever the output extension, the namespace file stem or any other option of that language is —
+none of them is an argument of this function; for every other language the file-name rule. -/
+def autoescapeRule (targetLanguage : String) (templateName : Option String) : Bool :=
+  targetLanguage == "html" || selectAutoescape templateName
+
+/-- Before the fix: the file-name rule alone (the HTML templates are named `*.j2`). -/
+def autoescapeRuleBeforeFix (_targetLanguage : String) (templateName : Option String) : Bool :=
+  selectAutoescape templateName
+
 /-! ## A conservative tokenizer state machine
 
 Only what matters for "can this text change the tokenizer state": in character data only `<` can start markup
